@@ -79,6 +79,11 @@ func c20drivers() []c20driver {
 		}),
 			threads:  [][]ProbeOp{{opCtx("getctx", "A", "session")}, {opCtx("getctx", "B", "session")}, {opCtx("getctx", "A", "user")}},
 			threads2: [][]ProbeOp{{opCtx("getctx", "A", "session"), opCtx("getctx", "B", "user")}, {opCtx("getctx", "B", "session"), ProbeOp{Op: "taggedctx", Ctx: "A", Tag: "tg"}}, {opCtx("getterctx", "A", "FetchSessionInContext"), opCtx("getctx", "B", "session")}}},
+		{id: "contextual-value-literal", contexts: []string{"A", "B"}, cfg: base(func(c *Cfg) {
+			c.Services = []Service{{Name: "tx", Value: P("&pk.Obj{}"), Scope: P("contextual")}, {Name: "txTyped", Value: P("&pk2.Obj{}"), Type: P("*pk2.Obj"), Scope: P("contextual")},
+				{Name: "repo", Constructor: P("pk.New"), Args: []any{"@tx", "@txTyped"}}, {Name: "fresh", Value: P("pk.Val{}"), Scope: P("non_shared"), Fields: []KV{{"F1", "@tx"}}}}
+		}), threads: [][]ProbeOp{{opCtx("getctx", "A", "repo")}, {opCtx("getctx", "B", "repo")}, {opCtx("getctx", "A", "tx")}},
+			threads2: [][]ProbeOp{{opCtx("getctx", "A", "repo"), opCtx("getctx", "B", "tx")}, {opCtx("getctx", "B", "repo"), op("get", "fresh")}, {opCtx("getctx", "A", "tx"), op("get", "fresh")}}},
 		{id: "typed-getters", cfg: base(func(c *Cfg) {
 			c.Params = []Param{{"dsn", `%env("C20_DSN", "default-dsn")%`}}
 			c.Services = []Service{{Name: "db", Constructor: P("pk.New"), Args: []any{"%dsn%"}, Getter: P("FetchDb"), Type: P("*pk.Obj"), MustGetter: P(true)}}
@@ -91,8 +96,8 @@ func init() {
 	Register(&Check{
 		ID:    "C20",
 		Level: "model_checking",
-		Rule: "10 drivers (shared chain with a multi-chunk parameter, %fn()% parameter used by two parameters, multi-chunk concatenation, contextual + unset-resolving-to-contextual under two attached contexts, non_shared + shared, tagged pair + consumer, decorated service, typed getters, several env()/envInt() chunks, a contextual service whose definition is spread over two files) x 3 threads x 1 operation on the same names: every interleaving with <= 2 preemptions (quick) / <= 3 preemptions and 2 operations per thread within a time budget (thorough); scheduling points before every Mutex.Lock, RWMutex.RLock/Lock and Once.Do of the runtime copy and before every statement of the generated code; " +
-			"per execution: no deadlock, every operation returns exactly what the sequential run returns (canonical object graphs incl. identity across threads), construction / function-call counters equal the sequential run's (each shared service and each parameter built once), contextual instances of distinct contexts distinct. Separate free-running pass of the same bodies with the real sync package under -race (16 goroutines x 200 rounds per driver). states = executions (complete schedules), transitions = scheduling decisions",
+		Rule: "11 drivers (shared chain with a multi-chunk parameter, %fn()% parameter used by two parameters, multi-chunk concatenation, contextual + unset-resolving-to-contextual under two attached contexts, non_shared + shared, tagged pair + consumer, decorated service, typed getters, several env()/envInt() chunks, a contextual service whose definition is spread over two files) x 3 threads x 1 operation on the same names: every interleaving with <= 2 preemptions (quick) / <= 3 preemptions and 2 operations per thread within a time budget (thorough); scheduling points before every Mutex.Lock, RWMutex.RLock/Lock and Once.Do of the runtime copy and before every statement of the generated code; " +
+			"per execution: no deadlock, every operation returns exactly what the sequential run returns (canonical object graphs incl. identity across threads), construction / function-call counters equal the sequential run's (each shared service and each parameter built once), contextual instances of distinct contexts distinct. Separate free-running pass of the same bodies with the real sync package under -race (16 goroutines x 600 rounds per driver). states = executions (complete schedules), transitions = scheduling decisions",
 		Assumptions: []string{
 			"the scheduler controls sync.Mutex, sync.RWMutex (writer preference) and sync.Once of the runtime's container package and every statement boundary of generated code; unsynchronised accesses below that granularity are left to the -race pass",
 			"groupcontext's WaitGroup (only used by HotSwap, which is not among the explored operations) stays on the real sync package",
@@ -228,7 +233,7 @@ func init() {
 						c.Violation("race-probe-build", "race probe does not build:\n"+err.Error(), FilesMap(files), nil)
 						return
 					}
-					spec := map[string]any{"threads": d.threads2, "contexts": d.contexts, "goroutines": 16, "rounds": 200, "seed": w.Env.Seed + 1}
+					spec := map[string]any{"threads": d.threads2, "contexts": d.contexts, "goroutines": 16, "rounds": 600, "seed": w.Env.Seed + 1}
 					in, _ := json.Marshal(spec)
 					cmd := exec.Command(bin)
 					cmd.Stdin = bytes.NewReader(in)
